@@ -435,6 +435,10 @@ fn plan_base(prop: &str) -> Vec<Item> {
             v.push(it("sync_states", "pool=2,st=8,n=1", Some(2), 3));
             v.push(it("sync_states", "pool=2,st=3,n=2", Some(1), 2));
             v.push(it("f3_nested_sync", "pool=1", Some(3), 4));
+            // a sync caller blocked behind a suspended operation is the only possible runner once the pool is pinned (seed C06-j)
+            for wake in [0, 1, 2] {
+                v.push(it("wake_ctx", &format!("pool=1,kind=0,ctx=3,wake={}", wake), Some(2), 3));
+            }
             v.push(it("sync_wipe", "pool=1", Some(2), 3));
             v.push(it("sync_wipe", "pool=2", Some(1), 2));
             // a desync from one more thread lands at an arbitrary moment (e.g. between an owner handing the queue back and its
@@ -516,8 +520,12 @@ fn plan_base(prop: &str) -> Vec<Item> {
                         v.push(it("wake_ctx", &format!("pool={},kind={},ctx=2,wake={}", pool, kind, wake), Some(2), if pool == 0 { 4 } else { 3 }));
                     }
                     v.push(it("wake_ctx", &format!("pool=1,kind={},ctx=1,wake={}", kind, wake), Some(2), 3));
+                    // the pool is pinned after the first poll: the wake-up has to reach the thread blocked in sync (seed C06-j)
+                    v.push(it("wake_ctx", &format!("pool=1,kind={},ctx=3,wake={}", kind, wake), Some(2), 3));
+                    v.push(it("wake_ctx", &format!("pool=2,kind={},ctx=3,wake={}", kind, wake), Some(1), 2));
                 }
             }
+            v.push(it("wake_ctx", "pool=1,kind=0,ctx=3,wake=1,selfwake=1", Some(2), 3));
             for wake in [0, 1, 2] {
                 for pool in [0, 1] {
                     v.push(it("wake_ctx", &format!("pool={},kind=2,ctx=2,wake={}", pool, wake), Some(2), 3));
